@@ -47,7 +47,7 @@ def meta(tier):
     import torchtt.solvers as so
     fns = [so.amen_solve, so._LinearOp.matvec, so._LinearOp.__init__]
     return {
-        'functions': loader.functions_encoded(fns), 'sig': sig,
+        'overapprox': True, 'functions': loader.functions_encoded(fns), 'sig': sig,
         'bounds': 'CLAUSE DECIDED: only "amen_solve(A, b) returns x of the right shape (a well-formed TT tensor with the modes of b) and raises nothing, with every preconditioner option (None, c, r), the direct and both '
                   'iterative local solvers, with or without an initial guess". orders 1..3 (thorough 4), mode sizes 2..3, operator/right-hand-side ranks 1..3, nswp 1..2, max_full in {0, 500}; every floating value is havoc, '
                   'so all outcomes of the local solves, truncations, residual and convergence tests are covered',
